@@ -44,6 +44,7 @@ type mSym struct {
 	nonNil bool
 	typ    types.Type
 	rt     types.Type // for the result of reflect.TypeOf: the type described
+	msg    mv         // for an error made by errors.New: its text
 }
 
 type mStruct []mv
@@ -434,6 +435,16 @@ func mapKey(v mv) (string, bool) {
 			ps = append(ps, k)
 		}
 		return "{" + strings.Join(ps, ",") + "}", true
+	case mArray:
+		var ps []string
+		for _, x := range t {
+			k, ok := mapKey(x)
+			if !ok {
+				return "", false
+			}
+			ps = append(ps, k)
+		}
+		return "[" + strings.Join(ps, ",") + "]", true
 	}
 	return "", false
 }
@@ -862,7 +873,9 @@ func (m *mach) global(g *ssa.Global) *mv {
 		// tables of the pure standard-library packages whose bodies the machine evaluates
 		v = m.zero(elem)
 		m.globals[g] = &v
-		m.initPkg(g.Pkg)
+		if g.Pkg.Pkg.Path() != "internal/bytealg" { // its initialiser only reads CPU features
+			m.initPkg(g.Pkg)
+		}
 		if g.Pkg.Pkg.Path() == "internal/bytealg" && g.Name() == "MaxLen" {
 			*m.globals[g] = int64(63) // amd64 with AVX2; only selects between equivalent search strategies
 		}
@@ -961,8 +974,13 @@ func (m *mach) callFn(caller *mframe, fn *ssa.Function, args []mv, env []mv) mv 
 	}
 	if !inModule {
 		if fn.Synthetic == "package initializer" || fn.Name() == "init" && fn.Signature.Recv() == nil && fn.Signature.Params().Len() == 0 {
-			return mNil
+			if !(fn.Synthetic == "package initializer" && caller == nil && fn.Pkg != nil && pureStdPkgs[fn.Pkg.Pkg.Path()] && fn.Blocks != nil) {
+				return mNil
+			}
+			inModule = true // the tables of a pure standard-library package, asked for by global()
 		}
+	}
+	if !inModule {
 		if r, ok := m.builtinModel(fn, args); ok {
 			return r
 		}
@@ -1013,6 +1031,28 @@ func (m *mach) callFn(caller *mframe, fn *ssa.Function, args []mv, env []mv) mv 
 	return fr.result
 }
 
+// harmlessVoid: result-less functions outside the module whose effects (output, scheduling, diagnostics)
+// are not part of any value the machine computes.
+func harmlessVoid(fn *ssa.Function) bool {
+	pkg := ""
+	if fn.Pkg != nil {
+		pkg = fn.Pkg.Pkg.Path()
+	} else if r := fn.Signature.Recv(); r != nil {
+		t := r.Type()
+		if p, ok := t.(*types.Pointer); ok {
+			t = p.Elem()
+		}
+		if n, ok := t.(*types.Named); ok && n.Obj().Pkg() != nil {
+			pkg = n.Obj().Pkg().Path()
+		}
+	}
+	switch pkg {
+	case "fmt", "log", "os", "runtime", "runtime/debug", "time", "testing", "sync", "io":
+		return true
+	}
+	return false
+}
+
 // opaqueResult: the result of a function outside the model.
 func (m *mach) opaqueResult(fn *ssa.Function, args []mv) mv {
 	res := fn.Signature.Results()
@@ -1032,6 +1072,23 @@ func (m *mach) opaqueResult(fn *ssa.Function, args []mv) mv {
 	}
 	switch res.Len() {
 	case 0:
+		// a function without results acts through its arguments: skipping it silently would continue with
+		// memory it should have changed (or a callback it should have called)
+		if !harmlessVoid(fn) {
+			for _, a := range args {
+				if i, ok := a.(mIface); ok {
+					a = i.v
+				}
+				switch x := a.(type) {
+				case *mv:
+					if x != nil {
+						m.abort("the effect of %s on its arguments is outside the model", base)
+					}
+				case mSlice, *mMap, *mClosure, *ssa.Function:
+					m.abort("the effect of %s on its arguments is outside the model", base)
+				}
+			}
+		}
 		return mNil
 	case 1:
 		// constructors return objects
@@ -1215,6 +1272,12 @@ func (m *mach) prepareCall(fr *mframe, cc *ssa.CallCommon) (fn mv, args []mv, en
 			if m.prog != nil {
 				prog = m.prog
 			}
+			if sy, isSym := r.v.(*mSym); isSym {
+				if pt, isPtr := r.t.(*types.Pointer); isPtr && types.IsInterface(pt.Elem()) {
+					// an error made by errors.New / fmt.Errorf: an opaque object
+					return &symMethod{recv: sy, method: cc.Method}, args, nil
+				}
+			}
 			f := prog.LookupMethod(r.t, cc.Method.Pkg(), cc.Method.Name())
 			if f == nil {
 				m.abort("method %s not found on %s", cc.Method.Name(), r.t)
@@ -1257,6 +1320,9 @@ func (m *mach) invoke(fr *mframe, fn mv, args []mv, env []mv, at ssa.Instruction
 			case "String":
 				return f.recv.rt.String()
 			}
+		}
+		if f.recv.msg != nil && f.method.Name() == "Error" && len(args) == 0 {
+			return f.recv.msg
 		}
 		// a method of an opaque object: the rule gives it a meaning through symCall
 		if m.symCall != nil {
@@ -1436,6 +1502,15 @@ func (m *mach) builtin(fr *mframe, b *ssa.Builtin, args []mv, at ssa.Instruction
 			return mIface{t: types.Typ[types.String], v: p.val}
 		}
 		return mNil
+	case "ssa:wrapnilchk":
+		// the receiver check of a promoted-method wrapper
+		if _, isNil := args[0].(mNilT); isNil {
+			m.throw(m.sym("runtime error: invalid memory address or nil pointer dereference", nil), "value method called through a nil pointer at %s", m.c.Pos(at.Pos()))
+		}
+		if p, ok := args[0].(*mv); ok && p == nil {
+			m.throw(m.sym("runtime error: invalid memory address or nil pointer dereference", nil), "value method called through a nil pointer at %s", m.c.Pos(at.Pos()))
+		}
+		return args[0]
 	case "print", "println":
 		return mNil
 	case "min", "max":
